@@ -219,7 +219,7 @@ func C15(r *vf.Run) {
 		return
 	}
 	chunks := r.N(64, 6000)
-	vf.Parallel(runtime.NumCPU(), chunks, func(w, ci int) {
+	r.Parallel(runtime.NumCPU(), chunks, func(w, ci int) {
 		g := r.Rand("hist").Fork(uint64(ci))
 		cells := map[string]int64{}
 		for k := 0; k < 160 && !r.TooMany(); k++ {
